@@ -24,7 +24,9 @@ ASSUMPTIONS = ["inputs: Ts / TsGroup on a single-interval support [s, e], s < e,
                "jitter keep_tsupport=True (the count is not promised): read as 'the result is the jittered series restricted to the kept support' - every returned stamp is a distinct input "
                "stamp moved by at most max_jitter, and an input stamp is missing only if a move of at most max_jitter can take it outside [s, e]",
                "TsGroup results whose support is RECOMPUTED (jitter keep_tsupport=False, shuffle): member counts are conserved only for members with >= 2 distinct result "
-               "timestamps and, for 2-member groups, away from a 1 us trim where the two recomputed supports touch (C20_*_refuted theorems; reported as findings)",
+               "timestamps (C20_group_recomputed_support_single_refuted / _raises_refuted; reported as findings). A pair of members whose recomputed supports touch is no "
+               "longer an exception (6917604: _union_intervals unites two supports like three or more); such pairs are generated (counter "
+               "recomputed_pair_with_touching_supports) and must keep every stamp",
                "the statement does not promise the class or the order of the result: any object with .t and .time_support is accepted and its stamps are compared as a multiset "
                "(the model comparison still pins the sorted order)"]
 
@@ -276,13 +278,16 @@ def kept_by_draws(ts, s, e, out, dvals, tol):
     return len(dvals) == len(ts) and matchable(sorted(out), cand, tol, [not (s + tol <= c <= e - tol) for c in cand])
 
 
-def judge_group(op, keys, tss, s, e, p, r, draws):
+def judge_group(op, keys, tss, s, e, p, r, draws, res=None):
     kind = "TsGroup"
     # the patterns of the known findings are computed from the RESULT the recorded draws imply; when the recorded draws do not line up
     # with the members (the call stopped half-way) no pattern is assigned
     aligned = len(draws) == len(tss) and all(len(d) == (len(ts) if op == "jitter_timestamps" else max(len(ts) - 1, 0)) for ts, d in zip(tss, draws))
     free = [expected_free(op, ts, d) for ts, d in zip(tss, draws)] if (not support_kept(op, p)) and aligned else [list(t) for t in tss]
     degenerate = [aligned and len(set(f)) <= 1 for f in free]
+    if res is not None and aligned and not support_kept(op, p) and len(tss) == 2 and not any(degenerate) and \
+            (free[0][-1] == free[1][0] or free[1][-1] == free[0][0]):
+        res.count("recomputed_pair_with_touching_supports")      # an exception until 6917604; now the two supports must merge
     if r[0] == "exc":
         key = {"op": op, "kind": kind, "part": "exception", "exception": r[1]}
         if r[1] == "IndexError" and op == "shuffle_ts_intervals" and any(len(t) == 0 for t in tss):
@@ -308,7 +313,7 @@ def judge_group(op, keys, tss, s, e, p, r, draws):
                 if degenerate[i]:
                     key["pattern"] = "member_single_distinct_timestamp"
                 elif lost and len(set(other)) > 1 and free[i][-1] == other[0] and all(other[0] - 1000 <= x < other[0] for x in lost):
-                    key["pattern"] = "two_members_touching_supports"
+                    key["pattern"] = "two_members_touching_supports"      # the defect repaired by 6917604 (no known entry any more): names it if it comes back
             v.append({"key": key, "what": "%s(TsGroup) member %d: %s" % (op, keys[i], what), "impl": outs})
     if kept:
         if gs != [(s, e)]:
@@ -499,7 +504,7 @@ def run(res, tier, seed):
             res.count("group_with_empty_member")
         if any(len(set(t)) == 1 for t in tss):
             res.count("group_with_single_distinct_member")
-        record(res, judge_group(op, keys, tss, s, e, p, r, draws), inp)
+        record(res, judge_group(op, keys, tss, s, e, p, r, draws, res=res), inp)
         if len(draws) == len(tss):
             lines.append(line_group(op, keys, tss, s, e, p, draws))
             pending.append(("TsGroup", inp, r))
@@ -533,7 +538,7 @@ def run(res, tier, seed):
             draws = align_draws(op, tss, dr.flat())
             inp = {"kind": "TsGroup", "op": op, "keys": keys, "tss": tss, "support": [s, e], "params": p, "draws": draws}
             res.case(("C", n), nontrivial=r[0] == "ok" and r[2] != tss)
-            record(res, judge_group(op, keys, tss, s, e, p, r, draws), inp)
+            record(res, judge_group(op, keys, tss, s, e, p, r, draws, res=res), inp)
             if len(draws) == len(tss):
                 lines.append(line_group(op, keys, tss, s, e, p, draws))
                 pending.append(("TsGroup", inp, r))
@@ -570,7 +575,7 @@ def run(res, tier, seed):
             draws = align_draws("shuffle_ts_intervals", tss, dr.flat())
             inp = {"kind": "TsGroup", "op": "shuffle_ts_intervals", "keys": keys, "tss": tss, "support": [s, e], "params": {}, "draws": draws}
             res.case(("E", n), nontrivial=r[0] == "ok" and r[2] != tss)
-            record(res, judge_group("shuffle_ts_intervals", keys, tss, s, e, {}, r, draws), inp)
+            record(res, judge_group("shuffle_ts_intervals", keys, tss, s, e, {}, r, draws, res=res), inp)
             if len(draws) == len(tss):
                 lines.append(line_group("shuffle_ts_intervals", keys, tss, s, e, {}, draws))
                 pending.append(("TsGroup", inp, r))
@@ -616,7 +621,7 @@ def run(res, tier, seed):
             draws = align_draws(op, tss, dr.flat())
             inp = {"kind": "TsGroup", "op": op, "keys": keys, "tss": tss, "support": [s, e], "params": p, "draws": draws, "resolution": "ns"}
             res.case(("F", n), nontrivial=r[0] == "ok" and r[2] != tss)
-            record(res, judge_group(op, keys, tss, s, e, p, r, draws), inp)
+            record(res, judge_group(op, keys, tss, s, e, p, r, draws, res=res), inp)
             if len(draws) == len(tss):
                 lines.append(line_group(op, keys, tss, s, e, p, draws))
                 pending.append(("TsGroup", inp, r))
@@ -669,16 +674,6 @@ def run(res, tier, seed):
             if kind == "TsGroup" and r[1] == m[1] and [fold(x) for x in r[2]] == [fold(x) for x in m[2]] and r[3] == m[3]:
                 res.float_ambiguous += 1
                 continue
-        if not same and kind == "TsGroup" and r[0] == "ok" and m[0] == "ok" and not support_kept(inp["op"], inp["params"]):
-            # recomputed support of two touching member supports: the constructor's trimmed end `start_of_next - 1e-6` is not
-            # re-rounded and may be one ulp off the canonical float, so (i) a stamp whose tick equals that end may be in or out,
-            # (ii) when the earlier support is exactly 1 us long the implementation may keep a zero-length (in ticks) interval
-            # [a, a] that the tick model drops.  Only stamps ON such a non-canonical endpoint may differ (DESIGN.md section 2)
-            nc = r[5]
-            if nc and [iv for iv in r[3] if iv[0] != iv[1]] == m[3] and r[1] == m[1] and \
-                    [[x for x in mem if x not in nc] for mem in r[2]] == [[x for x in mem if x not in nc] for mem in m[2]]:
-                res.float_ambiguous += 1
-                continue
         if not same:
             res.disagreements.append({"op": inp["op"], "kind": kind, "input": inp, "impl": r[1:4], "model": m})
     res.traces = len(pending)
@@ -713,7 +708,7 @@ def run(res, tier, seed):
             r = run_group(nap, op, keys, tss, s, e, p, dr)
             inp = {"kind": "TsGroup", "op": op, "keys": keys, "tss": tss, "support": [s, e], "params": p, "numpy_seed": sd}
             res.case(("D", "TsGroup", op, sd), nontrivial=r[0] == "ok" and r[2] != tss)
-            record(res, judge_group(op, keys, tss, s, e, p, r, align_draws(op, tss, dr.flat())), inp)
+            record(res, judge_group(op, keys, tss, s, e, p, r, align_draws(op, tss, dr.flat()), res=res), inp)
             if op == "jitter_timestamps" and p["keep"] and r[0] == "ok" and r[1] == list(keys):
                 dv = dr.flat()
                 if len(dv) != len(tss) or not all(kept_by_draws(t, s, e, o, d, 1) for t, o, d in zip(tss, r[2], dv)):
